@@ -135,7 +135,12 @@ class LockFile:
 
         if set_permissions:
             permission = int(file_permissions, base=8)
-            os.chmod(path, permission)
+            try:
+                os.chmod(path, permission)
+            except FileNotFoundError:
+                # the previous holder removed the lock file after our open(),
+                # the lock attempt below fails and will be retried
+                pass
 
         try:
             _lock_file(fp)
